@@ -25,7 +25,7 @@ import re
 import sys
 
 REPO = os.environ.get("VERIF_REPO", "/repo")
-OUT = os.path.join(os.path.dirname(os.path.abspath(__file__)), "..", "coq", "gen", "Src.v")
+OUT = os.environ.get("VERIF_SRC_OUT") or os.path.join(os.path.dirname(os.path.abspath(__file__)), "..", "coq", "gen", "Src.v")
 
 
 def read(rel):
@@ -580,6 +580,35 @@ def format_tie(out, enc, ecc, lib, comp, config):
     m = re.search(r"let format_version = src\.read_u32::<(\w+)>\(\)\?;", lib)
     m2 = re.search(r"dest\.write_u32::<(\w+)>\(self\.format_version\)\?;", lib)
     str_list("VERSION_ENDIAN", [m.group(1) if m else "?", m2.group(1) if m2 else "?"])
+    # work package hdrsrc: the ORDER of the source reads of ArchiveHeader::from (magic, version, then
+    # the bounded fixint bincode deserialisation straight from the source, every failure of which
+    # becomes DeserializationError) and of the writes of ArchiveHeader::dump
+    mf = re.search(r"impl ArchiveHeader \{\s*pub fn from<T: Read>\(src: &mut T\)(.*?)\n    fn dump<T: Write>\(&self, dest: &mut T\)(.*?)\n\}\n", lib, re.S)
+    if mf:
+        toks = [("read_exact(magic)", r"vec!\[00u8; MLA_MAGIC\.len\(\)\];\s*src\.read_exact\(buf\.as_mut_slice\(\)\)\?;"),
+                ("WrongMagic", r"if buf != MLA_MAGIC \{\s*return Err\(Error::WrongMagic\);"),
+                ("read_u32", r"src\.read_u32::<\w+>\(\)\?;"),
+                ("UnsupportedVersion", r"if format_version != MLA_FORMAT_VERSION \{\s*return Err\(Error::UnsupportedVersion\);"),
+                ("with_limit(BINCODE_MAX_DESERIALIZE)", r"\.with_limit\(BINCODE_MAX_DESERIALIZE\)"),
+                ("with_fixint_encoding", r"\.with_fixint_encoding\(\)"),
+                ("deserialize_from(src)", r"\.deserialize_from\(src\)"),
+                ("else=>DeserializationError", r"_ => \{\s*return Err\(Error::DeserializationError\);")]
+        found = []
+        for name, rx in toks:
+            for mm in re.finditer(rx, mf.group(1)):
+                found.append((mm.start(), name))
+        str_list("HEADER_FROM_CALLS", [n for _, n in sorted(found)])
+        out.append("Definition HEADER_FROM_SRC_USES : N := %d." % len(re.findall(r"\bsrc\b", mf.group(1))))
+        toks = [("write_all(MLA_MAGIC)", r"dest\.write_all\(MLA_MAGIC\)\?;"), ("write_u32", r"dest\.write_u32::<\w+>\(self\.format_version\)\?;"),
+                ("with_limit(BINCODE_MAX_DESERIALIZE)", r"\.with_limit\(BINCODE_MAX_DESERIALIZE\)"),
+                ("with_fixint_encoding", r"\.with_fixint_encoding\(\)"), ("serialize_into(dest)", r"\.serialize_into\(dest, &self\.config\)")]
+        found = []
+        for name, rx in toks:
+            for mm in re.finditer(rx, mf.group(2)):
+                found.append((mm.start(), name))
+        str_list("HEADER_DUMP_CALLS", [n for _, n in sorted(found)])
+    else:
+        out.append("Definition HEADER_FROM_CALLS_untranslatable : unit := tt.")
 
 
 def keys_c19(out):
@@ -1027,6 +1056,40 @@ def main():
         out.append("Definition MLA_STATUS_untranslatable : unit := tt.")
     out.append("")
 
+    # ---- C bindings, reading side (C20, work package capiread): the whence codes of the three
+    # SeekFrom arms, the u32 clamp of the read adapter, `iter.sort()` before the callback loop
+    try:
+        capi = read("bindings/C/src/lib.rs")
+        m = re.search(r"impl Seek for CallbackInputRead \{(.*?)\n\}\n", capi, re.S)
+        if not m:
+            raise ParseError("impl Seek for CallbackInputRead not found")
+        sbody = m.group(1)
+        w0 = re.search(r"SeekFrom::Start\(n\) => \(\s*(\d+),\s*i64::try_from\(n\)", sbody)
+        w1 = re.search(r"SeekFrom::Current\(n\) => \((\d+), n\)", sbody)
+        w2 = re.search(r"SeekFrom::End\(n\) => \((\d+), n\)", sbody)
+        if not (w0 and w1 and w2) or len(re.findall(r"SeekFrom::\w+\(n\) =>", sbody)) != 3:
+            raise ParseError("SeekFrom arms of CallbackInputRead::seek")
+        m = re.search(r"impl Read for CallbackInputRead \{(.*?)\n\}\n", capi, re.S)
+        if not m:
+            raise ParseError("impl Read for CallbackInputRead not found")
+        cl = re.search(r"let len = u32::try_from\(buf\.len\(\)\)\.map_or\(u32::MAX - (\d+), \|n\| n\);", m.group(1))
+        if not cl or not re.search(r"\n\s*0 => Ok\(len_read as usize\),", m.group(1)):
+            raise ParseError("clamp / Ok arm of CallbackInputRead::read")
+        m = re.search(r"\nfn mla_roarchive_extract_internal.*?\n\}\n", capi, re.S)
+        if not m:
+            raise ParseError("mla_roarchive_extract_internal not found")
+        xb = m.group(0)
+        i_sort, i_loop = xb.find("iter.sort();"), xb.find("for fname in &iter")
+        if i_loop < 0:
+            raise ParseError("callback loop of mla_roarchive_extract_internal")
+        out.append("Definition CAPI_SEEK_WHENCE : list N := [%s; %s; %s]." % (w0.group(1), w1.group(1), w2.group(1)))
+        out.append("Definition CAPI_READ_CLAMP : N := %d." % (2 ** 32 - 1 - int(cl.group(1))))
+        out.append("Definition CAPI_SORT_BEFORE_CALLBACKS : bool := %s." % ("true" if 0 <= i_sort < i_loop else "false"))
+    except Exception as e:  # fail closed
+        out.append("(* C bindings, reading side: %s *)" % e)
+        out.append("Definition CAPI_READ_SIDE_untranslatable : unit := tt.")
+    out.append("")
+
     text = "\n".join(out) + "\n"
     outp = os.path.normpath(OUT)
     os.makedirs(os.path.dirname(outp), exist_ok=True)
@@ -1042,5 +1105,19 @@ def main():
         print("src2v: unchanged", outp)
 
 
+def main2():
+    """second part of Tie A (decision logic): tools/src2v2.py -> coq/gen/Src2.v; fails closed as a whole"""
+    sys.path.insert(0, os.path.dirname(os.path.abspath(__file__)))
+    try:
+        import src2v2
+        src2v2.main()
+    except Exception as e:  # fail closed: the lemmas of SrcTie2*.v stop compiling
+        outp = os.environ.get("VERIF_SRC2_OUT") or os.path.join(os.path.dirname(os.path.normpath(OUT)), "Src2.v")
+        with open(outp, "w") as f:
+            f.write("(* GENERATED: tools/src2v2.py failed: %s *)\nDefinition src2_untranslatable : unit := tt.\n" % str(e).replace("*)", "* )"))
+        print("src2v2: FAILED", e)
+
+
 if __name__ == "__main__":
     main()
+    main2()
